@@ -12,6 +12,10 @@ structure St where
   dev : Option Fabric := none
   /-- the node id the controller addresses (the device's at the time of `hs`) -/
   peer : Nat := 0
+  /-- second fabric (index 2 on both nodes) and the device's node id on it -/
+  ctl2 : Option Fabric := none
+  dev2 : Option Fabric := none
+  peer2 : Nat := 0
   cacheI : List ResRec := []
   cacheR : List ResRec := []
   /-- fresh-value counter (ephemeral keys, randoms, session / resumption ids) -/
@@ -93,7 +97,7 @@ def nameOf : Msg → String
 functions `stepResp` / `stepInit` the network theorem is about (`Model/CaseNet.lean`);
 `muts` = (message, field) pairs hit by a change on the first transmission -/
 def runHs (t : Time) (st : St) (cf : Fabric) (dfs : List Fabric) (peer : Nat)
-    (muts : List (String × Nat)) : Outcome × St :=
+    (muts : List (String × Nat)) (edit : Msg → Msg := id) : Outcome × St :=
   let n := st.n
   let st := { st with n := n + 10 }
   let cfg : HsCfg :=
@@ -103,7 +107,7 @@ def runHs (t : Time) (st : St) (cf : Fabric) (dfs : List Fabric) (peer : Nat)
   let app (m : Msg) : Msg :=
     muts.foldl (fun acc (nm, tag) => if nm = nameOf m then mutField nm tag acc else acc) m
   let i0 := IState.sent1 cfg.init0
-  let (r1, o1) := stepResp cfg .idle (app cfg.init0.s1)
+  let (r1, o1) := stepResp cfg .idle (edit (app cfg.init0.s1))
   let (i1, p1) := match o1 with
     | m :: _ => stepInit cfg i0 (app m)
     | [] => (i0, [])
@@ -166,19 +170,32 @@ def checkSide (side : String) (t : Time) (mine peer : Fabric) (s : String) : Opt
       else if loc ≠ mine.nodeId then some s!"{side}: wrong local node id: {s}"
       else none
 
-def oracle (t : Time) (cf : Fabric) (df? : Option Fabric) (out : String) : Option String :=
+def oracle (t : Time) (cf : Fabric) (ctlOf devOf : Nat → Option Fabric) (anyDev : Bool) (out : String) :
+    Option String :=
   if out.startsWith "panic" then some "panic in the code under test" else
   let c := field out "ctl"
   let d := field out "dev"
-  match df? with
-  | none =>
+  if ¬ anyDev then
     -- the device holds no fabric at all
     if c ≠ "none" ∨ d ≠ "none" then some s!"a session although the device has no fabric: {out}" else none
-  | some df =>
-    match checkSide "controller" t cf df c with
+  else
+    let fabOf (s : String) : Nat := ((parseSess s).map (·.1)).getD 0
+    -- the controller's session lives on one of ITS fabrics and is with the device's node on that fabric
+    let oc : Option String :=
+      if c = "none" ∨ c.contains '+' then checkSide "controller" t cf cf c
+      else match ctlOf (fabOf c), devOf (fabOf c) with
+        | some mine, some peer => checkSide "controller" t mine peer c
+        | _, _ => some s!"controller: session on a fabric one of the nodes does not hold: {c}"
+    -- the device's session lives on one of ITS fabrics; the peer is the controller as it acted in this handshake
+    let od : Option String :=
+      if d = "none" ∨ d.contains '+' then checkSide "device" t cf cf d
+      else match devOf (fabOf d) with
+        | some mine => checkSide "device" t mine cf d
+        | none => some s!"device: session on a fabric index it does not hold: {d}"
+    match oc with
     | some w => some w
     | none =>
-      match checkSide "device" t df cf d with
+      match od with
       | some w => some w
       | none =>
         if c ≠ "none" ∧ d ≠ "none" ∧ field out "keys" ≠ "agree" then
@@ -342,6 +359,10 @@ def predictableMuts (mu : Option (String × String × Nat)) : Option (List (Stri
   | some (m, "f", a) => some [(m, a)]
   | some (m, "y", a) => some [(m, a)]
   | some (m, "Y", _) => some [(m, 6), (m, 7)]
+  -- one VALID value in the place of another: handled by `validSubst`
+  | some (_, "d", _) => some []
+  | some (_, "q", _) => some []
+  | some (_, "e", _) => some []
   | _ => none
 
 def step (st : St) (line : String) : St × String :=
@@ -356,6 +377,23 @@ def step (st : St) (line : String) : St × String :=
     | some w => (st, s!"ORA {w}")
     | none => if want = out then (st, "ok") else (st, s!"DIS {want}")
   | "foreign" :: _ => if out = "foreign resumed" then (st, "ok") else (st, "DIS foreign resumed")
+  | "fab2" :: rest =>
+    let rec? (k : String) : Option Cert := (Driver.C19.kv k rest).bind Driver.C19.parseRec
+    let orec (k : String) : Option Cert :=
+      match Driver.C19.kv k rest with
+      | some "-" => none
+      | some v => Driver.C19.parseRec v
+      | none => none
+    if out.startsWith "fabric:" then (st, "ok") else
+    match rec? "root", rec? "cnoc", rec? "dnoc" with
+    | some root, some cnoc, some dnoc =>
+      let key (k : String) : Option Nat := (Driver.C19.kv k rest).bind String.toNat?
+      let f2 (f : Fabric) : Fabric := { f with ipk := .atom 78 }
+      let st' := { st with ctl2 := some (f2 (mkFabric 2 root cnoc (orec "cicac") (key "ckey"))),
+                           dev2 := some (f2 (mkFabric 2 root dnoc (orec "dicac") (key "dkey"))),
+                           peer2 := (nodeIdOf dnoc.subject).getD 0 }
+      if out = "joined cidx=2 didx=2" then (st', "ok") else (st', "DIS joined cidx=2 didx=2")
+    | _, _, _ => (st, "BAD fab2")
   | "rmfab" :: _ =>
     let dc := (parseCache (field out "dc")).getD []
     let st' := { st with dev := none, cacheR := Cache.removeForFabric st.cacheR 1, implDc := field out "dc" }
@@ -402,20 +440,46 @@ def step (st : St) (line : String) : St × String :=
             peer := (nodeIdOf dnoc.subject).getD 0, n := 0 }
         | _, _, _ => {}
       else st
-    match st.ctl, Driver.C19.parseTime (field out "t") with
+    let fab := ((Driver.C19.kv "fab" rest).bind String.toNat?).getD 1
+    let ctlOf (k : Nat) : Option Fabric := if k = 1 then st.ctl else if k = 2 then st.ctl2 else none
+    let devOf (k : Nat) : Option Fabric := if k = 1 then st.dev else if k = 2 then st.dev2 else none
+    let peerOf (k : Nat) : Nat := if k = 2 then st.peer2 else st.peer
+    match ctlOf fab, Driver.C19.parseTime (field out "t") with
     | some cf, some t =>
       let mu := (Driver.C19.kv "mut" rest).bind parseMut
       let sched := Driver.C19.kv "sched" rest
-      let ora := oracle t cf st.dev out
+      let raced := (words out).contains "raced"
+      let ora := oracle t cf ctlOf devOf (st.dev.isSome || st.dev2.isSome) out
       let preC := (parseCache st.implCc).getD []
       let preD := (parseCache st.implDc).getD []
       let postC := (parseCache (field out "cc")).getD []
       let postD := (parseCache (field out "dc")).getD []
       let ora := ora <|> oracleResume st out preC preD postC postD
+      -- a VALID value of another fabric / record put in the place of the own one
+      let validSubst (m : Msg) : Msg :=
+        match mu, m with
+        | some ("s1", k, a), .sigma1 r sd d e res =>
+          let other := if k = "q" then (if fab = 2 then 1 else 2) else a
+          let d' := if k = "q" then d else
+            match ctlOf other with
+            | some f => destId f.ipk r f.root.pubKey f.fabricId (peerOf other)
+            | none => d
+          let res' := if k = "d" then res else
+            match st.cacheR.find? (fun x => x.fabIdx == other), res with
+            | some x, some (_, mc) => some (x.rid, mc)
+            | _, _ => res
+          if k = "d" ∨ k = "q" ∨ k = "e" then .sigma1 r sd d' e res' else m
+        | _, _ => m
       -- model prediction: unmutated runs and single-field changes on a perfect network
-      let pm := if sched.isNone then predictableMuts mu else none
+      let pm := if sched.isNone ∧ ¬ raced then predictableMuts mu else none
       let predictable : Bool := pm.isSome
-      let (o, st') := runHs t st cf st.dev.toList st.peer (pm.getD [])
+      let (o, st') := runHs t st cf ([st.dev, st.dev2].filterMap id) (peerOf fab) (pm.getD []) validSubst
+      -- the RemoveFabric state changes ran on the device during this handshake
+      let st' := if raced then { st' with dev := none } else st'
+      let ora := ora <|> (if raced ∧ field out "dev" ≠ "none" then
+          some s!"the device holds a session of a fabric that was removed while the handshake was in flight: {out}" else none)
+      let ora := ora <|> (if raced ∧ ((parseCache (field out "dc")).getD []).any (fun r => r.fab == 1) then
+          some s!"a resumption record of a fabric removed during the handshake is (back) in the device's cache: {out}" else none)
       -- `st'` = the model's state after the run (compared below when the run is predictable);
       -- afterwards the model continues from the caches the implementation reports (named byte
       -- strings become atoms), so that it can follow runs it could not predict
